@@ -840,10 +840,13 @@ def pointer_kernel_contracts(ctx, rule='pointer-kernel-contracts'):
                 'apply_XP': {'X0': 'X', 'X1': 'X', 'X2': 'X'}})
     HH = contracts.Spec('Spectra::UpperHessenbergSchur', [], {}, {
         'apply_householder_left': {'pre': ['0 <= ncol']},
-        'apply_householder_right': {'pre': ['0 <= nrow']}})
+        'apply_householder_right': {'pre': ['0 <= nrow']},
+        'apply_householder_right_simd': {'pre': ['0 <= nrow']}})
+    simd = {k_: 'WR' for k_ in ('x', 'x0', 'x1', 'x2', 'px0', 'px1', 'px2')}
     D4 = Dense({'WL': dict(rows=3, cols='ncol', stride='stride'), 'WR': dict(rows='nrow', cols=3, stride='stride')},
-               {'apply_householder_left': {'x': 'WL', 'x_end': 'WL'}, 'apply_householder_right': {'x': 'WR', 'x0': 'WR', 'x1': 'WR', 'x2': 'WR'}})
-    tot = contracts.verify_dense(ctx, HH, D4, _check_sites, rule, min_sites=12)
+               {'apply_householder_left': {'x': 'WL', 'x_end': 'WL'}, 'apply_householder_right': {'x': 'WR', 'x0': 'WR', 'x1': 'WR', 'x2': 'WR'},
+                'apply_householder_right_simd': simd})
+    tot = contracts.verify_dense(ctx, HH, D4, _check_sites, rule, min_sites=30)
     for spec, dm, floor in ((HQ, D1, 25), (TQ, D2, 20), (DS, D3, 60)):
         tot += contracts.verify_dense(ctx, spec, dm, _check_sites, rule, min_sites=floor)
         _extents_established(ctx, spec, rule)
